@@ -122,6 +122,9 @@ Importer::~Importer()
 
 std::vector<ImportSourcePtr>::const_iterator Importer::ImporterImpl::findImportSource(const ImportSourcePtr &importSource) const
 {
+    if (importSource == nullptr) {
+        return mImports.end();
+    }
     return std::find_if(mImports.begin(), mImports.end(),
                         [=](const ImportSourcePtr &importSrc) -> bool { return importSource->equals(importSrc); });
 }
